@@ -34,7 +34,7 @@ def parse_magnet(uri):
 
 class C11:
     id = "C11"
-    quick, thorough = 600, 9000
+    quick, thorough = 1800, 30000
     timeout = 120
     rule = ("case = metafile (created by the tool, created then edited, or written by the reference encoder with "
             "extra keys, multi-tier announce-list, url-list as list or bare string) x name / URL alphabet incl. "
@@ -617,7 +617,14 @@ def _c20_ini(case, out):
     o = case["opts"]
     lines = ["[config]"]
     def multi(key, vals):
-        lines.append(f"{key} =")
+        if len(vals) == 1 and case.get("ini_inline"):
+            lines.append(f"{key} = {vals[0]}")          # one URL written on the key's own line
+            return
+        if case.get("ini_first_inline"):
+            lines.append(f"{key} = {vals[0]}")          # first URL inline, the rest on continuation lines
+            vals = vals[1:]
+        else:
+            lines.append(f"{key} =")
         for v in vals:
             lines.append(f"    {v}")
     if o.get("announce"):
@@ -661,7 +668,7 @@ def _c20_ini(case, out):
 
 class C20:
     id = "C20"
-    quick, thorough = 400, 6000
+    quick, thorough = 1200, 24000
     timeout = 120
     rule = ("case = random subset/values of {announce 1-3, web-seed, http-seed, private, source, comment, "
             "piece-length, meta-version, out (file / dir/ / default), align} supplied (1) as CLI flags with the "
@@ -671,7 +678,7 @@ class C20:
             "masked; non-trivial when >= 2 options are set; distinct by (option subset, CLI order class, version, "
             "out form)")
     required = ("three_routes_compared", "config_route_executed", "swallowed_path_cases", "fields_checked",
-                "out_file_cases", "out_dir_cases")
+                "out_file_cases", "out_dir_cases", "config_inline_single_value")
     assumptions = ("INI-unsafe values (%, leading/trailing blanks, newlines, the words true/false) are not generated",
                    "documented configuration keys are the singular long option names of the manual's example")
 
@@ -710,7 +717,8 @@ class C20:
                               "private": rng.choice(["-p", "--private"]), "source": rng.choice(["-s", "--source"]),
                               "comment": rng.choice(["-c", "--comment"]), "out": rng.choice(["-o", "--out"])},
                 "ininames": {"announce": rng.choice(["announce", "announce", "tracker"])},
-                "ini_private_false": rng.random() < 0.3, "cmdword": rng.choice(["create", "new"]),
+                "ini_private_false": rng.random() < 0.3, "ini_inline": rng.random() < 0.5,
+                "ini_first_inline": rng.random() < 0.25, "cmdword": rng.choice(["create", "new"]),
                 "lib_path_kw": rng.choice(["path", "content"]), "lib_pl_str": rng.random() < 0.5}
 
     @staticmethod
@@ -757,6 +765,8 @@ class C20:
                     fd.write(_c20_ini(case, outarg))
                 oc = drive.cli_execute(["create", "--config", "--config-path", ini, "--prog", "0", root])
                 counters["config_route_executed"] = 1
+                if case.get("ini_inline") and any(len(o.get(k) or []) == 1 for k in ("announce", "url_list", "httpseeds")):
+                    counters["config_inline_single_value"] = 1
             else:
                 kw = {case["lib_path_kw"]: root, "progress": 0}
                 for k in ("announce", "url_list", "httpseeds", "private", "source", "comment", "align"):
